@@ -49,6 +49,9 @@ int import_block_prevhash_compare(const void* void_arg, const void* void_data)
 static inline tommy_uint32_t import_block_hash(const unsigned char* hash)
 {
 	/* the hash data is not aligned, and we cannot access it with a direct cast */
+	/* and it may be shorter than 4 bytes if a reduced hash size is configured */
+	if (BLOCK_HASH_SIZE < 4)
+		return hash[0] | ((uint32_t)hash[1] << 8);
 	return hash[0] | ((uint32_t)hash[1] << 8) | ((uint32_t)hash[2] << 16) | ((uint32_t)hash[3] << 24);
 }
 
